@@ -85,6 +85,17 @@ const c20Slack = time.Second
 func c20Run(p c20Plan) (f *common.Fail, inconclusive string) {
 	for k := 0; k <= p.Repeat; k++ {
 		if f, inconclusive = c20RunOnce(p); f != nil {
+			// "a response sent well before the deadline is missing from the result" rests on the receiver goroutine being
+			// scheduled in time - under heavy load it is not always, and the one-shot control sleep does not always
+			// notice. A logic error reproduces; a scheduling artefact does not: the verdict stands only if the same
+			// script fails the same way two more times.
+			if f.Kind == "match-missed" {
+				for again := 0; again < 2; again++ {
+					if f2, _ := c20RunOnce(p); f2 == nil || f2.Kind != "match-missed" {
+						return f2, "match-missed once, not reproduced (scheduling)"
+					}
+				}
+			}
 			return
 		}
 	}
@@ -535,6 +546,18 @@ func genMatch(rt *rapid.T, call string) string {
 		f := common.GenFrame(rt, kind, "ldata-ind-app")
 		if kind == "descrres" {
 			f.Extra = common.GenValidDIBs(rt)
+		}
+		if kind == "searchres" && rapid.IntRange(0, 2).Draw(rt, "extended") == 0 {
+			// a search response with further well-formed description blocks behind the mandatory two. Whether it *is* a
+			// search response is not asked of the library's decoder (the oracle must not move with the code under
+			// test): it is one if the same response without the extra blocks is
+			b0, _ := common.RefEncode(f)
+			f.Extra = common.GenValidDIBs(rt)
+			b, _ := common.RefEncode(f)
+			if _, err := decodeWithin(b0, 3*time.Second); err == nil && len(b) <= 1024 {
+				return hex.EncodeToString(b)
+			}
+			continue
 		}
 		b, _ := common.RefEncode(f)
 		// a response the decoder spins on is kept: the call has to cope with it (and is watched)
